@@ -55,6 +55,8 @@ static struct thread_state set_state(struct thread_data *self, thread_schedule_s
 //@LIFT set_state_body
 static bool set_state_tagged(struct thread_data *self, thread_schedule_state newstate, struct thread_state *prev_state, struct thread_state *new_tagged_state)
 //@LIFT set_state_tagged_body
+static bool restore_state_2(struct thread_data *self, thread_schedule_state new_state, thread_restart_state state_ex, struct thread_state old_state)
+//@LIFT restore_state_2_body
 static bool restore_state_1(struct thread_data *self, struct thread_state new_state, struct thread_state old_state)
 //@LIFT restore_state_1_body
 static bool switch_status_is_valid(const struct switch_status *self)
